@@ -26,12 +26,16 @@ def cells(tier, seed):
     out.append({"id": "minres/zero_col", "params": {"group": "zero_col", "n": 2}})
     out.append({"id": "minres/homog", "params": {"group": "homog", "n": 2}})
     out.append({"id": "minres/n1", "params": {"group": "minres", "n": 1, "shifts": "vec2", "value": "none", "cols": 1, "pc": "none"}})
+    out.append({"id": "minres/stop_order/n16", "params": {"group": "stop_order", "n": 16}})
     for inverse in (True, False):
         out.append({"id": f"ciq/supplied/inverse{int(inverse)}", "params": {"group": "ciq", "n": 2, "inverse": inverse}})
     return out
 
 
 def explore_opts(params, tier):
+    if params["group"] == "stop_order":
+        return {"timeout_s": 10.0, "max_paths": 4, "norm_first": True, "path_budget_s": 240.0,
+                "engine_opts": {"cut_sites": ("minres", "_jit_minres_updates"), "symfloat_sites": ("minres",)}, "on_nonreplay": "inconclusive"}
     return {"timeout_s": 10.0 if tier == "quick" else 300.0, "max_paths": 8, "norm_first": True, "path_budget_s": 180.0,
             "engine_opts": {"cut_sites": ("minres", "_jit_minres_updates"), "item_whitelist": ("minres",)}, "on_nonreplay": "inconclusive"}
 
@@ -42,7 +46,7 @@ def describe(tier):
                    "iterations": "max_iter = 0, i.e. the loop runs n iterations: exact at full Krylov dimension"},
         "outside": ["the quadrature nodes / weights of contour_integral_quad (scipy.special.ellipk / ellipj, then Python floats): the statements "
                     "'weighted sum equals K^(-1/2) b', 'sqrt_inv_matmul twice = A^-1 R', 'CIQ samples have covariance A' are approximation "
-                    "statements about an elliptic-function quadrature and are NOT covered", "stopping-tolerance clauses", "n > 2"],
+                    "statements about an elliptic-function quadrature and are NOT covered", "stopping-tolerance clauses other than the symmetry of the stopping rule in the shifts (stop_order cell)", "n > 2 with symbolic K"],
         "assumptions": ["generic-case cut: the safe-division clamps inside minres are not triggered", "contour_integral_quad is driven with caller-supplied "
                         "shifts and weights (an API the function offers), which exercises its MINRES plumbing only"],
     }
@@ -58,9 +62,33 @@ def make_K(ctx, n):
     return L @ L.mT
 
 
+def stop_order(ctx, n):
+    """the stopping rule (every 10th iteration, mean relative update over ALL shifts below minres_tolerance) treats the shifts
+    symmetrically: solving with shifts (s0, s1) and with (s1, s0) must stop at the same iteration, i.e. give the same two
+    solutions.  K and b are concrete (16 x 16, spectrum 1..100; 14 iterations, so the only convergence test is the one at iteration 10), the two shifts are symbolic; the library's `conv < tolerance`
+    comparison is a recorded decision (SymFloat)"""
+    from linear_operator import settings
+    d = torch.linspace(1.0, 100.0, n, dtype=torch.float64)
+    K = torch.diag_embed(d)
+    b = (torch.arange(1, n + 1, dtype=torch.float64) / n).reshape(n, 1)
+    s0 = ctx.leaf("s_big", (1,), lo=2000, hi=4000)
+    s1 = ctx.leaf("s_small", (1,), lo=0, hi=1)
+    I = torch.eye(n, dtype=torch.float64)
+
+    def chk():
+        with settings.minres_tolerance(1e-6):
+            xa = minres(lambda z: K @ z, b, shifts=torch.cat([s0, s1]), max_iter=14)
+            xb = minres(lambda z: K @ z, b, shifts=torch.cat([s1, s0]), max_iter=14)
+        ctx.eq(xa[0], xb[1], "solution for the large shift does not depend on the order of the shifts")
+        ctx.eq(xa[1], xb[0], "solution for the small shift does not depend on the order of the shifts")
+    attempt(ctx, "stop_order", chk)
+
+
 def harness(ctx):
     p = ctx.params
     n, g = p["n"], p["group"]
+    if g == "stop_order":
+        return stop_order(ctx, n)
     K = make_K(ctx, n)
     I = torch.eye(n, dtype=torch.float64)
     mm = lambda z: K @ z  # noqa: E731
